@@ -59,6 +59,14 @@ func (d *Driver) getLedgerLocked(name string) (*ledger.Ledger, error) {
 	}
 	cp := *r.committed
 	cp.Metadata = cpMeta(r.committed.Metadata)
+	// every read of the ledgers table yields its own maps (as scanning a row does): controllers of
+	// different requests must not share the Features map (the state tracker re-scans into it)
+	if r.committed.Features != nil {
+		cp.Features = make(map[string]string, len(r.committed.Features))
+		for k, v := range r.committed.Features {
+			cp.Features[k] = v
+		}
+	}
 	return &cp, nil
 }
 
